@@ -1,7 +1,10 @@
 """C14 — the formatter never changes a program, loses no comment, and is idempotent (level: partial).
 
-prove:      Props/C14.lean — theorems about the layout engine model (Model/Pretty.lean) + token-level newline rule.
-correspond: (1) model vs the real `pretty` crate on random documents x widths, compared byte for byte;
+prove:      Props/C14.lean — theorems about the layout engine model (Model/Pretty.lean), the token-level newline rule, and the
+            ported printer (Model/CstPrint.lean: content of the document = tokens + comments of the tree on the class keepsAll).
+correspond: (0) the ported formatter (Lean: tokenizer + preparse + grammar + printer + layout engine) vs the real pretty_print_cst:
+                rendered text equal at every (width, indent) on every text the harness formats (FNV-1a of the whole output);
+            (1) model vs the real `pretty` crate on random documents x widths, compared byte for byte;
             (2) the three clauses of the statement on the REAL formatter with the REAL parser as oracle:
                 corpus files, layout/comment mutations of them, generated programs; 8 widths x 2 indent sizes.
 decide:     failures inside the open class-shaped findings of known_findings.jsonl -> KNOWN-FINDING; anything else -> VIOLATION.
@@ -59,6 +62,54 @@ def run_nl(ctx, seed, n):
     return n, nontriv, both_err, problems
 
 
+def run_port(rows, stream):
+    """the tie of Model/CstPrint.lean: the harness logs, for every text it formats, the FNV-1a hash of the real output per
+    (width, indent) (`origin: port` rows); the Lean driver formats the same text with the ported tokenizer + preparse + grammar +
+    printer + layout engine; the hashes must be EQUAL at every configuration (`ERR` = both report a syntax error).
+    returns (rows without the port rows, stats dict, problems)"""
+    port = [r for r in rows if r.get("origin") == "port"]
+    rest = [r for r in rows if r.get("origin") != "port"]
+    st = {"texts": 0, "evals": 0, "multi_layout": 0, "err_both": 0, "leaves": 0, "keeps": 0, "not_keeps": []}
+    if not port:
+        return rest, st, []
+    lines = "".join("F\t%s\t%s\t%s\t%s\n" % (r["hex"], r["classes"], r["widths"], ",".join(f"{o[0]}:{o[1]}" for o in r["outs"])) for r in port)
+    q = driver("C14", input=lines)
+    ans = q.stdout.split("\n")
+    problems = []
+    if q.returncode != 0 or len(ans) < len(port):
+        problems.append({"kind": "driver-crash", "stream": f"port/{stream}", "stderr": q.stderr[-2000:], "answered": len(ans), "asked": len(port),
+                         "first_unanswered": port[min(len(ans), len(port)) - 1].get("id")})
+    for r, l in zip(port, ans):
+        if not l:
+            continue
+        f = l.split("\t")
+        real = [o[2] for o in r["outs"]]
+        mine = f[1].split(",") if f[0] == "ok" and len(f) > 1 else [f[0]] * len(real)
+        st["texts"] += 1
+        st["evals"] += len(real)
+        if mine != real:
+            k = next(i for i in range(len(real)) if i >= len(mine) or mine[i] != real[i])
+            src = bytes.fromhex(r["hex"]).decode("utf-8", "replace") if r["hex"] != "-" else ""
+            problems.append({"kind": "port", "id": r["id"], "src": src, "w": r["outs"][k][0], "ind": r["outs"][k][1],
+                             "real": real[k], "model": mine[k] if k < len(mine) else None, "configs_differing": sum(1 for a, b in zip(real, mine) if a != b)})
+            continue
+        if f[0] != "ok":
+            st["err_both"] += 1
+            continue
+        if len(set(real)) >= 2:
+            st["multi_layout"] += 1
+        if len(f) > 2:
+            st["leaves"] += int(f[2])
+        if len(f) > 3:
+            if f[3] == "1":
+                st["keeps"] += 1
+            elif len(st["not_keeps"]) < 20:
+                src = bytes.fromhex(r["hex"]).decode("utf-8", "replace") if r["hex"] != "-" else ""
+                st["not_keeps"].append({"id": r["id"], "src": src[:300], "first_node_outside_class": f[4] if len(f) > 4 else "",
+                                        "content_equals_expected": (f[5] == "1") if len(f) > 5 else None})
+    return rest, st, problems
+
+
 def attribute(row, known_by_class):
     """split the failures of one text into (known: {finding id: count}, new: [fail records])"""
     fails = row.get("fails", [])
@@ -73,10 +124,17 @@ def attribute(row, known_by_class):
             # per lost comment: its position key `<preceding token kind>@<owning CST node>` must be one of the positions
             # that lose comments on the pinned tree; a comment lost anywhere else is a new failure
             k = known_by_class.get("comment-at-dropping-delimiter")
+            # a class with `lost_positions`: the text is in the class (predicate on the input CST) and every lost comment sits at
+            # one of the positions the class drops
+            pos_classes = [known_by_class[c] for c in classes if c in known_by_class and "lost_positions" in known_by_class[c]]
             for f in fl:
                 keys = [c.split(">")[0] for c in f.get("lost_pos", ["?"])]
+                allowed = set(p for pc in pos_classes for p in pc["lost_positions"])
                 if k and keys and all(c in k["positions"] for c in keys):
                     known[k["id"]] += 1
+                elif pos_classes and keys and all(c in allowed for c in keys):
+                    for pc in pos_classes:
+                        known[pc["id"]] += 1
                 else:
                     f = dict(f, new_positions=sorted(set(c for c in keys if not k or c not in k["positions"])))
                     new.append(f)
@@ -99,7 +157,8 @@ def attribute(row, known_by_class):
 
 def main(ctx, args):
     ctx.assumptions += [
-        "the formatter's per-construct code (cst_print.rs, 2.4 kLoC) is NOT modelled: the three clauses are decided by running it, with the real parser as oracle",
+        "Model/CstPrint.lean is a literal port of every function of mimium-fmt/src/cst_print.rs (bodies pinned by hash, tools/cst_print.json; dispatch table re-extracted); tie = the text rendered by the Lean pipeline (ported tokenizer, preparse, grammar, printer, layout engine) equals the real pretty_print_cst output at every (width, indent) the harness uses, on every text of this run; display widths of non-ASCII tokens are taken from the crate",
+        "the three clauses (same AST, comments, fixed point) are still DECIDED by running the real formatter with the real parser as oracle; the theorems cover the content clause on the class keepsAll, evaluated by the driver on every parsed text",
         "Model/NewlineRule.lean is a hand port of the expression core of cst_parser.rs on token classes (atoms, infix/prefix operators, calls, field access, indexing, parens, tuples, arrays); tie = green-tree shapes compared on random token sequences with random line breaks in this run (error cases: only the error flag is compared)",
         "Model/Pretty.lean is a hand port of pretty-0.12.4 render.rs (best/fitting) restricted to Nil/Append/Group/FlatAlt/Nest/Hardline/text; tie = byte-exact comparison on random documents in this run",
         "usize arithmetic of the crate modelled on Nat (no overflow/saturation at 2^64)",
@@ -119,6 +178,14 @@ def main(ctx, args):
     rows, doc_problems, other_problems = [], [], []
     doc_cases, doc_nontriv = 0, set()
     nl_cases, nl_nontriv, nl_both_err, nl_problems = 0, set(), 0, []
+    port_stats, port_problems, port_not_keeps = collections.Counter(), [], []
+
+    def take_port(rs, stream):
+        rest, st, pr = run_port(rs, stream)
+        port_not_keeps.extend(st.pop("not_keeps"))
+        port_stats.update(st)
+        port_problems.extend(pr)
+        return rest
     if args.replay:
         r = json.load(open(args.replay))
         if "tree" in r:
@@ -136,7 +203,7 @@ def main(ctx, args):
             if "w" in r and "ind" in r:
                 d["configs"] = [[r["w"], r["ind"]]]
             p = mmh("C14", ["texts"], input=json.dumps(d) + "\n")
-            rows += [json.loads(l) for l in p.stdout.split("\n") if l.strip()]
+            rows += take_port([json.loads(l) for l in p.stdout.split("\n") if l.strip()], "replay")
         else:
             ctx.violation("replay file names a proof obligation, nothing to re-run but the build", r, found_input=False)
     else:
@@ -153,7 +220,7 @@ def main(ctx, args):
         p = mmh("C14", ["texts"], input="".join(json.dumps(t) + "\n" for t in texts))
         if p.returncode != 0:
             other_problems.append({"kind": "harness-crash", "stream": "corpus", "stderr": p.stderr[-2000:]})
-        rows += [json.loads(l) for l in p.stdout.split("\n") if l.strip()]
+        rows += take_port([json.loads(l) for l in p.stdout.split("\n") if l.strip()], "corpus")
         # 2. shipped sources + mutations, generated programs, random documents — sharded
         shards = 16 if not thorough else 32
         nmut = 6 if not thorough else 40
@@ -187,7 +254,7 @@ def main(ctx, args):
             p = mmh("C14", job[1], input=job[2] if len(job) > 2 else None)
             if p.returncode != 0:
                 return ("crash", {"kind": "harness-crash", "stream": " ".join(job[1]), "stderr": p.stderr[-2000:]})
-            return ("rows", [json.loads(l) for l in p.stdout.split("\n") if l.strip()])
+            return ("rows",) + run_port([json.loads(l) for l in p.stdout.split("\n") if l.strip()], " ".join(job[1][:3]))
         for res in parallel(jobs, work):
             if res[0] == "docs":
                 doc_cases += res[1]
@@ -202,6 +269,9 @@ def main(ctx, args):
                 other_problems.append(res[1])
             else:
                 rows += res[1]
+                port_not_keeps.extend(res[2].pop("not_keeps"))
+                port_stats.update(res[2])
+                port_problems.extend(res[3])
     # ---- decide
     stats = collections.Counter()
     known_hits = collections.Counter()
@@ -284,6 +354,15 @@ def main(ctx, args):
         ctx.violation(f"layout model and the pretty crate disagree on {len(doc_problems)} documents (smallest: width={best['width']} tree={best['tree'][:200]}); "
                       "the content-invariance theorems no longer speak about the crate in use",
                       dict(best, correspondence="Model/Pretty.lean vs pretty crate", cases=len(doc_problems)), found_input=False)
+    for pr in [p for p in port_problems if p["kind"] != "port"]:
+        ctx.violation(f"{pr['kind']} in stream {pr.get('stream')}", pr, found_input=False)
+    port_dis = [p for p in port_problems if p["kind"] == "port"]
+    if port_dis:
+        best = min(port_dis, key=lambda d: len(d["src"]))
+        ctx.violation(f"ported printer (Model/CstPrint.lean) and the real pretty_print_cst disagree on {len(port_dis)} texts (smallest: {best['id']} at width={best['w']} "
+                      f"indent={best['ind']}); the C14_format_* theorems no longer speak about the formatter in use",
+                      dict(best, correspondence="Model/CstPrint.lean vs mimium-fmt cst_print.rs (rendered text, FNV-1a)", cases=len(port_dis),
+                           other_ids=[d["id"] for d in port_dis[:30]], replay_cmd="./check C14 --replay <this file>"), found_input=False)
     crashes = [p for p in nl_problems if p["kind"] != "nlrule"]
     for pr in crashes:
         ctx.violation(f"{pr['kind']} in stream {pr.get('stream')}", pr, found_input=False)
@@ -304,20 +383,28 @@ def main(ctx, args):
             ctx.notes.append("positions listed in F14 where some comment was KEPT this run (class may be narrowed): " + ", ".join(kept))
         if unseen:
             ctx.notes.append("positions listed in F14 not exercised this run: " + ", ".join(unseen))
+    if port_not_keeps and not args.replay:
+        ctx.notes.append("texts outside the class keepsAll (the model predicts dropped content; all must belong to a known finding class): " +
+                         ", ".join(sorted(set(d["id"] for d in port_not_keeps))[:12]))
     for k in known:
         n = known_hits.get(k["id"], 0)
         if n or args.replay is None:
             ctx.known_finding(f"{k['id']} [{k.get('class','')}] {k['what']} (failing (text,config) pairs attributed this run: {n})")
     ctx.coverage.update({
-        "evaluations": stats["evaluations"] + doc_cases + nl_cases,
+        "evaluations": stats["evaluations"] + doc_cases + nl_cases + port_stats["evals"],
         "distinct_nontrivial": len(nontrivial) + len(doc_nontriv) + len(nl_nontriv),
-        "rule": "program cases: one evaluation = one (source text, width, indent) with all four checks (parse, AST, comments, fixed point); gap-insertion variants (one comment in one token gap of a class-free text, 4 kinds) count as texts with 4 configurations each; "
+        "rule": "printer-port cases: one evaluation = one (source text, width, indent) formatted by the real formatter and by the Lean port, outputs compared exactly; program cases: one evaluation = one (source text, width, indent) with all four checks (parse, AST, comments, fixed point); gap-insertion variants (one comment in one token gap of a class-free text, 4 kinds) count as texts with 4 configurations each; "
                 "non-trivial = the text was formatted to at least two different outputs across the 16 configurations (layout really depends on width/indent), distinct by id; "
                 "parser cases: one evaluation = one (token-class sequence, line-break placement) parsed by the real parser and the newline-rule model, non-trivial = error-free with at least one line break, distinct by (classes, breaks); "
                 "document cases: one evaluation = one (document, width) rendered by the real crate and the model; non-trivial = output contains a line break, distinct by (width, tree)",
         "samples": samples or [{"note": "replay mode"}],
-        "traces_validated_against_impl": doc_cases + nl_cases,
-        "model_impl_disagreements": len(doc_problems) + len(nl_dis),
+        "traces_validated_against_impl": doc_cases + nl_cases + port_stats["evals"],
+        "model_impl_disagreements": len(doc_problems) + len(nl_dis) + len(port_dis),
+        "printer_port": {"texts_formatted_by_both": port_stats["texts"], "text_x_config_compared": port_stats["evals"],
+                         "texts_with_two_layouts": port_stats["multi_layout"], "both_report_syntax_error": port_stats["err_both"],
+                         "disagreements": len(port_dis), "text_leaves_printed(model)": port_stats["leaves"],
+                         "texts_in_class_keepsAll": port_stats["keeps"], "texts_outside_keepsAll(sample)": port_not_keeps[:5],
+                         "comparison": "FNV-1a of the whole output text, every (width, indent) the harness formats the text at"},
         "parser_cases": nl_cases, "parser_cases_nontrivial": len(nl_nontriv), "parser_cases_both_report_errors": nl_both_err,
         "impl_property_failures": stats["texts_failing"],
         "impl_property_failures_outside_known_classes": len(new_fail),
